@@ -169,7 +169,7 @@ PROPERTIES["C08"] = {
         {"mode": "c08", "harness": "writer", "runs": {"quick": 30000, "thorough": 1500000}, "share": 0.6},
         {"mode": "c08enum", "harness": "writer", "runs": {"quick": 500, "thorough": 20000}, "stall_s": 300, "share": 0.4},
     ],
-    "expected_probes": ["hard fault fired", "exception reached the caller", "fault-free or soft-only run succeeded", "enumerated fault points", "the Writer's write thread could not be started"],
+    "expected_probes": ["hard fault fired", "exception reached the caller", "fault-free or soft-only run succeeded", "enumerated fault points", "the Writer's write thread could not be started", "set_buffer_size() called between writes", "successful write decodes to exactly the objects handed to the Writer"],
     "components_real": WRITER_REAL,
     "components_stubbed": READER_STUB + ["compressor failure (deflate / BZ2_bzCompress / LZ4_compress_fast returning an error on the tape-chosen call) injected by link-time wrappers"],
     "assumptions": COMMON_ASSUMPTIONS + ["mode c08: fault offsets are sampled by the seed over the whole would-be output (with a bias to the last 16 bytes); mode c08enum: every byte offset is enumerated for small workloads (<= 6000 output bytes), one errno/partial/transient variant per workload", "write() returning 0 for a non-zero count is not injected (cannot happen on regular files)"],
